@@ -4,10 +4,15 @@ prescribed procedure: git -C /repo apply <patch>; run every check's quick comman
 import json, os, re, shutil, subprocess, sys, glob
 src = sys.argv[1] if len(sys.argv) > 1 else "/tmp/seed/out"
 suffix = sys.argv[2] if len(sys.argv) > 2 else ""
-skip = {"C14/m1": "manifests only for exponents beyond the package limits (MaxInt32), outside the property's domain"} if not suffix else {
-    "C18/m2": "not confirmed: with the patch 3 stable baseline tests fail in this sandbox (the GDA runner shares one Context between goroutines)",
-    "C04/m1": "manifests only for a target exponent of MaxInt32, outside the package limits (out of the property's domain)",
-    "C17/m1": "manifests only for Exponent == MinInt32, outside the package limits (out of the property's domain)"}
+skips = {
+    "": {"C14/m1": "manifests only for exponents beyond the package limits (MaxInt32), outside the property's domain"},
+    "-r2": {
+        "C18/m2": "not confirmed: with the patch 3 stable baseline tests fail in this sandbox (the GDA runner shares one Context between goroutines)",
+        "C04/m1": "manifests only for a target exponent of MaxInt32, outside the package limits (out of the property's domain)",
+        "C17/m1": "manifests only for Exponent == MinInt32, outside the package limits (out of the property's domain)"},
+    "-r3": {},
+}
+skip = skips.get(suffix, {})
 rows = []
 for d in sorted(glob.glob(src + "/C*/m*")):
     rel = d[len(src)+1:]
